@@ -27,7 +27,7 @@ REQUIRED = {"history:compared": 1000, "history:tokenize-compared": 1000, "histor
             "calls:clear_cache": 50, "calls:edits": 500, "histories:on-the-long-lived-parser": 20, "histories:deep-failures-in-pool": 20, "history:deep-chain-repeated": 5}
 
 
-def deep_repeat(rec):
+def deep_repeat(rec, prop="C12"):
     """the same very long chain asked several times of one parser, under the interpreter's DEFAULT
     recursion limit (the shards otherwise raise it): whatever the first answer was (a tree: long
     sums are built by a loop, not by recursion), the later answers and a fresh parser's answer must
@@ -66,7 +66,7 @@ def deep_repeat(rec):
         rec.ev()
         rec.arm("history:deep-chain-repeated")
         if any(o != fresh for o in outs):
-            rec.violation("C12", "history/outcome", "a used parser answers differently from a fresh parser",
+            rec.violation(prop, "history/outcome", "a used parser answers differently from a fresh parser",
                           {"text": text[:200], "deep_repeat": True, "summary": f"a chain of {terms} terms ('{text[:30]}...') parsed 3 times, cache cleared, parsed again, under the default "
                            f"recursion limit: outcomes {outs}, a fresh parser: {fresh}"})
 
